@@ -99,4 +99,121 @@ theorem evalOp_inst (sh : Shape) (whole A : Sent) (B raw : Option Sent) (var : N
               simp [g1, g2] at hv; subst hv
               simp [eval, iht s1 v1 h1 g1, ihu s2 v2 h2 g2]
 
+/-! ### modal rules -/
+
+theorem eval_modal (hm : L.modal = true) (e : Env M.D) (w : M.W) (o : Op1) (ho : o.isModal = true) (A : Sent) :
+    eval L M e w (.op1 o A) = L.T.mfold o (profile L.T (fun w' => M.R w w') (fun w' => eval L M e w' A)) := by
+  simp [eval, ho, hm]
+
+/-- pointwise templates: what the instantiated sentence evaluates to at a point where the
+    operand has value `x` -/
+theorem evalPt_inst (whole A : Sent) (var : Nat × Nat) (e : Env M.D) (w : M.W) :
+    ∀ (tm : Tm) (s' : Sent) (v : V), tm.inst whole A none none var = some s' →
+      Tm.evalPt L.T (some (eval L M e w A)) none tm = some v → eval L M e w s' = v := by
+  intro tm
+  induction tm with
+  | lhs => intro s' v hi hv; simp [Tm.inst] at hi; simp [Tm.evalPt] at hv; subst hi; exact hv
+  | rhs => intro s' v hi; simp [Tm.inst] at hi
+  | whole => intro s' v _ hv; simp [Tm.evalPt] at hv
+  | raw => intro s' v hi; simp [Tm.inst] at hi
+  | bind q t _ => intro s' v _ hv; simp [Tm.evalPt] at hv
+  | op1 o t ih =>
+      intro s' v hi hv
+      simp only [Tm.inst, Option.map_eq_some_iff] at hi
+      obtain ⟨s1, hs1, rfl⟩ := hi
+      simp only [Tm.evalPt] at hv
+      split at hv
+      · cases hv
+      · next hmo =>
+        simp only [Option.map_eq_some_iff] at hv
+        obtain ⟨v1, hv1, rfl⟩ := hv
+        rw [eval_op1_nonmodal _ _ _ (by simpa using hmo), ih s1 v1 hs1 hv1]
+  | op2 o t u iht ihu =>
+      intro s' v hi hv
+      simp only [Tm.inst, Option.bind_eq_bind] at hi
+      cases h1 : t.inst whole A none none var with
+      | none => simp [h1] at hi
+      | some s1 =>
+        cases h2 : u.inst whole A none none var with
+        | none => simp [h1, h2] at hi
+        | some s2 =>
+          simp [h1, h2] at hi; subst hi
+          simp only [Tm.evalPt, Option.bind_eq_bind] at hv
+          cases g1 : Tm.evalPt L.T (some (eval L M e w A)) none t with
+          | none => simp [g1] at hv
+          | some v1 =>
+            cases g2 : Tm.evalPt L.T (some (eval L M e w A)) none u with
+            | none => simp [g1, g2] at hv
+            | some v2 =>
+              simp [g1, g2] at hv; subst hv
+              simp [eval, iht s1 v1 h1 g1, ihu s2 v2 h2 g2]
+
+/-- templates at the node's own world in a modal rule -/
+theorem evalMSame_inst (hT : L.tablesTotalB = true) (hM : M.Interp L) (hm : L.modal = true)
+    (mo : Op1) (hmo : mo.isModal = true) (A : Sent) (var : Nat × Nat) (e : Env M.D) (w : M.W) :
+    ∀ (tm : Tm) (s' : Sent) (v : V), tm.inst (.op1 mo A) A none none var = some s' →
+      Tm.evalMSame L.T mo (profile L.T (fun w' => M.R w w') (fun w' => eval L M e w' A)) tm = some v →
+      eval L M e w s' = v := by
+  intro tm
+  induction tm with
+  | lhs => intro s' v _ hv; simp [Tm.evalMSame] at hv
+  | rhs => intro s' v hi; simp [Tm.inst] at hi
+  | whole =>
+      intro s' v hi hv
+      simp [Tm.inst] at hi; subst hi
+      simp [Tm.evalMSame] at hv; subst hv
+      exact eval_modal hm e w mo hmo A
+  | raw => intro s' v hi; simp [Tm.inst] at hi
+  | bind q t _ => intro s' v _ hv; simp [Tm.evalMSame] at hv
+  | op1 o t ih =>
+      intro s' v hi hv
+      simp only [Tm.inst, Option.map_eq_some_iff] at hi
+      obtain ⟨s1, hs1, rfl⟩ := hi
+      simp only [Tm.evalMSame] at hv
+      split at hv
+      · next ho =>
+        simp only [Option.map_eq_some_iff, Tm.mapProfile] at hv
+        obtain ⟨Q, hQ, rfl⟩ := hv
+        rw [eval_modal hm e w o ho s1]
+        unfold Tables.mfold
+        congr 3
+        apply Tables.canon_congr
+        intro v hv
+        rw [mem_profile]
+        constructor
+        · rintro ⟨_, w'', hR, rfl⟩
+          have hx : eval L M e w'' A ∈ profile L.T (fun w' => M.R w w') (fun w' => eval L M e w' A) :=
+            mem_profile.2 ⟨eval_mem_vals L hT M hM A e w'', w'', hR, rfl⟩
+          obtain ⟨vx, hvx, hf⟩ := mapOpt_mem_fwd hQ _ hx
+          rw [evalPt_inst (L := L) (M := M) (.op1 mo A) A var e w'' t s1 vx hs1 hf]
+          exact hvx
+        · intro hvQ
+          obtain ⟨x, hx, hf⟩ := mapOpt_mem_bwd hQ v hvQ
+          obtain ⟨_, w'', hR, rfl⟩ := mem_profile.1 hx
+          exact ⟨hv, w'', hR, evalPt_inst (L := L) (M := M) (.op1 mo A) A var e w'' t s1 v hs1 hf⟩
+      · next ho =>
+        simp only [Option.map_eq_some_iff] at hv
+        obtain ⟨v1, hv1, rfl⟩ := hv
+        rw [eval_op1_nonmodal _ _ _ (by simpa using ho), ih s1 v1 hs1 hv1]
+  | op2 o t u iht ihu =>
+      intro s' v hi hv
+      simp only [Tm.inst, Option.bind_eq_bind] at hi
+      cases h1 : t.inst (.op1 mo A) A none none var with
+      | none => simp [h1] at hi
+      | some s1 =>
+        cases h2 : u.inst (.op1 mo A) A none none var with
+        | none => simp [h1, h2] at hi
+        | some s2 =>
+          simp [h1, h2] at hi; subst hi
+          simp only [Tm.evalMSame, Option.bind_eq_bind] at hv
+          generalize hP : profile L.T (fun w' => M.R w w') (fun w' => eval L M e w' A) = P at *
+          cases g1 : Tm.evalMSame L.T mo P t with
+          | none => simp [g1] at hv
+          | some v1 =>
+            cases g2 : Tm.evalMSame L.T mo P u with
+            | none => simp [g1, g2] at hv
+            | some v2 =>
+              simp [g1, g2] at hv; subst hv
+              simp [eval, iht s1 v1 h1 g1, ihu s2 v2 h2 g2]
+
 end Ptx
